@@ -183,7 +183,7 @@ func checkC20(c *Check, p *Program) {
 			if nt := namedOf(res0); nt != nil {
 				resType = nt.Obj().Name()
 			}
-			goodAssert := func(v ssa.Value, at *ssa.BasicBlock) bool {
+			goodAssertF := func(v ssa.Value, facts []Cmp) bool {
 				ex, ok := v.(*ssa.Extract)
 				if !ok || ex.Index != 0 {
 					return false
@@ -192,25 +192,29 @@ func checkC20(c *Check, p *Program) {
 				if !ok || !ta.CommaOk || ta.X != rv || !isPtrToNamed(ta.AssertedType, knxnetPath, resType) {
 					return false
 				}
-				return anyFact(factsAt(at), func(f Cmp) bool {
+				return anyFact(facts, func(f Cmp) bool {
 					_, t2, ok := assertOK(f)
 					return ok && t2 == ta
 				})
 			}
+			goodAssert := func(v ssa.Value, at *ssa.BasicBlock) bool { return goodAssertF(v, factsAt(at)) }
 			if !isSlice {
 				nGood := 0
 				for _, r := range returnsOf(fn) {
-					for _, v := range resultValues(r, 0) {
-						if isNilConst(v) {
-							continue
+					for _, v0 := range resultValues(r, 0) {
+						for _, alt := range alternativesAt(v0, r.Block()) {
+							v := alt.V
+							if isNilConst(v) {
+								continue
+							}
+							okv := goodAssertF(v, alt.facts())
+							if okv {
+								nGood++
+								// returned at once with a nil error
+								c.Decide(!p.returnMayBeNil(r, 1) == false, "C20.D4", name+" matching response returned with nil error", p.InstrPos(r), "nil error", "the matching response is returned together with an error")
+							}
+							c.Decide(okv, "C20.D4", name+" result is the asserted response", p.InstrPos(r), "value of msg.(*"+resType+") on its ok edge", "a non-nil result that is not the received frame asserted to *"+resType+" on the ok edge")
 						}
-						okv := goodAssert(v, r.Block())
-						if okv {
-							nGood++
-							// returned at once with a nil error
-							c.Decide(!p.returnMayBeNil(r, 1) == false, "C20.D4", name+" matching response returned with nil error", p.InstrPos(r), "nil error", "the matching response is returned together with an error")
-						}
-						c.Decide(okv, "C20.D4", name+" result is the asserted response", p.InstrPos(r), "value of msg.(*"+resType+") on its ok edge", "a non-nil result that is not the received frame asserted to *"+resType+" on the ok edge")
 					}
 				}
 				c.Floor("C20.D4", name+" returns of a matching response", nGood, 1)
@@ -435,8 +439,14 @@ func checkUDPOrigin(c *Check, p *Program) {
 					return false
 				}
 				a0, a1 := call.Common().Args[0], call.Common().Args[1]
-				fromAddr := func(x ssa.Value) bool { p := valuePath(x); return p.Root == ssa.Value(addr) && p.LastField() != nil && p.LastField().Name() == "IP" }
-				fromSender := func(x ssa.Value) bool { p := valuePath(x); return sender != nil && p.Root == sender && p.LastField() != nil && p.LastField().Name() == "IP" }
+				fromAddr := func(x ssa.Value) bool {
+					p := valuePath(x)
+					return p.Root == ssa.Value(addr) && p.LastField() != nil && p.LastField().Name() == "IP"
+				}
+				fromSender := func(x ssa.Value) bool {
+					p := valuePath(x)
+					return sender != nil && p.Root == sender && p.LastField() != nil && p.LastField().Name() == "IP"
+				}
 				return (fromAddr(a0) && fromSender(a1)) || (fromAddr(a1) && fromSender(a0))
 			})
 		}
